@@ -2,3 +2,4 @@
 pub mod hex;
 pub mod page;
 pub mod table;
+pub mod vsign;
